@@ -436,16 +436,16 @@ Qed.
 
 (* 1. bounded: whatever happens to the registry between assignment and lookup, the call
       returns within MAX_ROUTE_ATTEMPTS + 1 loop tests *)
-Lemma route_gen_fuel_bound interf strat H order s : forall fuel attempt st,
+Lemma route_gen_fuel_bound interf strat H (orders : N -> list node) s : forall fuel attempt st,
   (N.to_nat (Consts.ROUTER_MAX_ROUTE_ATTEMPTS - attempt) < fuel)%nat ->
-  snd (route_write_gen interf fuel attempt strat H order st s) <> Hang.
+  snd (route_write_gen interf fuel attempt strat H orders st s) <> Hang.
 Proof.
   induction fuel as [|f IH]; intros attempt st Hlt; [lia|].
   cbn [route_write_gen].
   destruct (Consts.ROUTER_MAX_ROUTE_ATTEMPTS <=? attempt) eqn:Ele; [cbn; discriminate|].
   apply N.leb_gt in Ele.
-  destruct (assign_shard strat H order st s) as [st1 r] eqn:Ea.
-  pose proof (assign_shard_returns strat H order st s) as [Hnh Hnp]. rewrite Ea in Hnh, Hnp. cbn in Hnh, Hnp.
+  destruct (assign_shard strat H (orders attempt) st s) as [st1 r] eqn:Ea.
+  pose proof (assign_shard_returns strat H (orders attempt) st s) as [Hnh Hnp]. rewrite Ea in Hnh, Hnp. cbn in Hnh, Hnp.
   destruct r as [n|e| |]; cbn; try discriminate; try congruence.
   destruct (aget N.eqb n (interf attempt (st_reg st1))) as [i|]; [|cbn; discriminate].
   destruct (can_accept_writes i); [cbn; discriminate|].
@@ -453,13 +453,13 @@ Proof.
 Qed.
 
 (* 2. an Ok(node) can accept writes in the registry as it is at the moment of the lookup *)
-Lemma route_gen_eligible interf strat H order s : forall fuel attempt st st' n,
-  route_write_gen interf fuel attempt strat H order st s = (st', Done n) ->
+Lemma route_gen_eligible interf strat H (orders : N -> list node) s : forall fuel attempt st st' n,
+  route_write_gen interf fuel attempt strat H orders st s = (st', Done n) ->
   eligible (st_reg st') n = true.
 Proof.
   induction fuel as [|f IH]; intros attempt st st' n; cbn [route_write_gen]; [discriminate|].
   destruct (Consts.ROUTER_MAX_ROUTE_ATTEMPTS <=? attempt); [discriminate|].
-  destruct (assign_shard strat H order st s) as [st1 r] eqn:Ea.
+  destruct (assign_shard strat H (orders attempt) st s) as [st1 r] eqn:Ea.
   destruct r as [m|e| |]; try discriminate.
   cbn [st_reg with_reg].
   destruct (aget N.eqb m (interf attempt (st_reg st1))) as [i|] eqn:Eg; [|discriminate].
@@ -469,13 +469,13 @@ Proof.
 Qed.
 
 (* 3. without interference the first attempt always settles it: route_write is assign_shard *)
-Lemma route_no_interf_single strat H order st s f attempt :
+Lemma route_no_interf_single strat H (orders : N -> list node) st s f attempt :
   attempt < Consts.ROUTER_MAX_ROUTE_ATTEMPTS ->
-  route_write_gen no_interf (S f) attempt strat H order st s = assign_shard strat H order st s.
+  route_write_gen no_interf (S f) attempt strat H orders st s = assign_shard strat H (orders attempt) st s.
 Proof.
   intros Hlt. cbn [route_write_gen].
   apply N.leb_gt in Hlt. rewrite Hlt.
-  destruct (assign_shard strat H order st s) as [st1 r] eqn:Ea.
+  destruct (assign_shard strat H (orders attempt) st s) as [st1 r] eqn:Ea.
   destruct r as [n|e| |]; auto.
   pose proof (assign_shard_eligible _ _ _ _ _ _ _ Ea) as He.
   unfold no_interf. rewrite with_reg_same.
@@ -485,13 +485,16 @@ Qed.
 
 Lemma route_write_is_assign strat H order st s :
   route_write strat H order st s = assign_shard strat H order st s.
-Proof. unfold route_write, ROUTE_FUEL. apply route_no_interf_single, max_attempts_pos. Qed.
+Proof.
+  unfold route_write, ROUTE_FUEL.
+  apply (route_no_interf_single strat H (fun _ => order) st s _ 0 max_attempts_pos).
+Qed.
 
 (* fuel bound 1: a single loop iteration, in EVERY state (reachable or not) *)
 Theorem route_terminates strat H order st s :
-  snd (route_write_gen no_interf 1 0 strat H order st s) <> Hang /\
-  forall f, route_write_gen no_interf (S f) 0 strat H order st s
-            = route_write_gen no_interf 1 0 strat H order st s.
+  snd (route_write_gen no_interf 1 0 strat H (fun _ => order) st s) <> Hang /\
+  forall f, route_write_gen no_interf (S f) 0 strat H (fun _ => order) st s
+            = route_write_gen no_interf 1 0 strat H (fun _ => order) st s.
 Proof.
   split.
   - rewrite route_no_interf_single by apply max_attempts_pos. apply assign_shard_returns.
@@ -526,9 +529,9 @@ Theorem route_result_assigned strat H order st s st' n :
 Proof. rewrite route_write_is_assign. apply assign_shard_assigned. Qed.
 
 (* under interference: bounded, and an Ok is eligible at the moment of its lookup *)
-Theorem route_bounded_under_interference interf strat H order st s :
-  snd (route_write_gen interf ROUTE_FUEL 0 strat H order st s) <> Hang /\
-  forall st' n, route_write_gen interf ROUTE_FUEL 0 strat H order st s = (st', Done n) ->
+Theorem route_bounded_under_interference interf strat H (orders : N -> list node) st s :
+  snd (route_write_gen interf ROUTE_FUEL 0 strat H orders st s) <> Hang /\
+  forall st' n, route_write_gen interf ROUTE_FUEL 0 strat H orders st s = (st', Done n) ->
                 eligible (st_reg st') n = true.
 Proof.
   split.
@@ -664,14 +667,14 @@ Qed.
 
 (* route_write under interference: the assignment map stays a map, and only the routed shard's
    entry can change *)
-Lemma route_gen_asg_wf interf strat H order s : forall fuel attempt st st' r,
-  route_write_gen interf fuel attempt strat H order st s = (st', r) -> asg_wf st -> asg_wf st'.
+Lemma route_gen_asg_wf interf strat H (orders : N -> list node) s : forall fuel attempt st st' r,
+  route_write_gen interf fuel attempt strat H orders st s = (st', r) -> asg_wf st -> asg_wf st'.
 Proof.
   induction fuel as [|f IH]; intros attempt st st' r; cbn [route_write_gen].
   - intros Heq Hwf. inversion Heq; subst. exact Hwf.
   - destruct (Consts.ROUTER_MAX_ROUTE_ATTEMPTS <=? attempt).
     + intros Heq Hwf. inversion Heq; subst. exact Hwf.
-    + destruct (assign_shard strat H order st s) as [st1 r1] eqn:Ea. intros Heq Hwf.
+    + destruct (assign_shard strat H (orders attempt) st s) as [st1 r1] eqn:Ea. intros Heq Hwf.
       pose proof (assign_shard_asg_wf _ _ _ _ _ _ _ Ea Hwf) as Hwf1.
       destruct r1 as [n|e| |]; try (inversion Heq; subst; exact Hwf1).
       cbn [st_reg with_reg] in Heq.
@@ -680,15 +683,15 @@ Proof.
       eapply IH; [exact Heq|]. unfold asg_wf, unassign. cbn. apply nodup_adel. exact Hwf1.
 Qed.
 
-Lemma route_gen_other_shards interf strat H order s s' : s' <> s -> forall fuel attempt st st' r,
-  route_write_gen interf fuel attempt strat H order st s = (st', r) ->
+Lemma route_gen_other_shards interf strat H (orders : N -> list node) s s' : s' <> s -> forall fuel attempt st st' r,
+  route_write_gen interf fuel attempt strat H orders st s = (st', r) ->
   aget N.eqb s' (st_asg st') = aget N.eqb s' (st_asg st).
 Proof.
   intros Hne. induction fuel as [|f IH]; intros attempt st st' r; cbn [route_write_gen].
   - intros Heq. inversion Heq; subst. reflexivity.
   - destruct (Consts.ROUTER_MAX_ROUTE_ATTEMPTS <=? attempt).
     + intros Heq. inversion Heq; subst. reflexivity.
-    + destruct (assign_shard strat H order st s) as [st1 r1] eqn:Ea. intros Heq.
+    + destruct (assign_shard strat H (orders attempt) st s) as [st1 r1] eqn:Ea. intros Heq.
       pose proof (assign_shard_other _ _ _ _ _ _ _ _ Ea Hne) as Ho.
       destruct r1 as [n|e| |]; try (inversion Heq; subst; exact Ho).
       cbn [st_reg with_reg] in Heq.
@@ -707,7 +710,7 @@ Proof.
     eapply rebalance_asg_wf; eauto.
   - destruct (route_write strat H order st s) as [st1 r1] eqn:Er. intros Heq. inversion Heq; subst.
     rewrite route_write_is_assign in Er. eapply assign_shard_asg_wf; eauto.
-  - destruct (route_write_gen (interf_of specs) ROUTE_FUEL 0 strat H order st s) as [st1 r1] eqn:Er.
+  - destruct (route_write_gen (interf_of specs) ROUTE_FUEL 0 strat H (order_at orders) st s) as [st1 r1] eqn:Er.
     intros Heq. inversion Heq; subst. eapply route_gen_asg_wf; eauto.
 Qed.
 
@@ -732,7 +735,7 @@ Theorem moves_only_when_ineligible_or_rebalanced strat H st o st' r s n :
   aget N.eqb s (st_asg st') <> Some n ->
   (exists order, o = ORebalance order) \/
   (exists order, o = ORoute s order /\ eligible (st_reg st) n = false) \/
-  (exists order specs, o = ORouteI s order specs).
+  (exists orders specs, o = ORouteI s orders specs).
 Proof.
   destruct o; cbn; try (intros Heq; inversion Heq; subst; cbn; congruence).
   - destruct (heartbeat n0 (st_reg st)). intros Heq. inversion Heq; subst. cbn. congruence.
@@ -747,7 +750,7 @@ Proof.
       match goal with Hc : current_ok _ _ = None |- _ => unfold current_ok in Hc; rewrite Hold in Hc end.
       destruct (eligible (st_reg st) n); [discriminate|reflexivity].
     + rewrite aget_aset_other in Hnew by auto. congruence.
-  - destruct (route_write_gen (interf_of specs) ROUTE_FUEL 0 strat H order st s0) as [st1 r1] eqn:Er.
+  - destruct (route_write_gen (interf_of specs) ROUTE_FUEL 0 strat H (order_at orders) st s0) as [st1 r1] eqn:Er.
     intros Heq Hold Hnew. inversion Heq; subst. right. right.
     destruct (N.eq_dec s s0) as [->|Hne]; [eauto|].
     exfalso. apply Hnew. rewrite (route_gen_other_shards _ _ _ _ _ _ Hne _ _ _ _ _ Er). exact Hold.
@@ -763,7 +766,7 @@ Theorem moves_only_when_ineligible_or_rebalanced_hist strat H h o s n :
   aget N.eqb s (st_asg st') <> Some n ->
   (exists order, o = ORebalance order) \/
   (exists order, o = ORoute s order /\ eligible (st_reg st) n = false) \/
-  (exists order specs, o = ORouteI s order specs).
+  (exists orders specs, o = ORouteI s orders specs).
 Proof.
   cbn. unfold run, run_from. rewrite fold_left_app. cbn.
   destruct (step strat H (fold_left (fun acc o0 => fst (step strat H acc o0)) h init_state) o) as [st' r] eqn:Es.
@@ -775,7 +778,7 @@ Theorem assigned_only_by_route strat H st o st' r s :
   step strat H st o = (st', r) ->
   aget N.eqb s (st_asg st) = None ->
   aget N.eqb s (st_asg st') <> None ->
-  (exists order, o = ORoute s order) \/ (exists order specs, o = ORouteI s order specs).
+  (exists order, o = ORoute s order) \/ (exists orders specs, o = ORouteI s orders specs).
 Proof.
   destruct o; cbn; try (intros Heq; inversion Heq; subst; cbn; congruence).
   - destruct (heartbeat n (st_reg st)). intros Heq. inversion Heq; subst. cbn. congruence.
@@ -788,7 +791,7 @@ Proof.
     rewrite asg_update_node_shards in Hnew. cbn in Hnew.
     destruct (N.eq_dec s s0) as [->|Hne]; auto.
     rewrite aget_aset_other in Hnew by auto. congruence.
-  - destruct (route_write_gen (interf_of specs) ROUTE_FUEL 0 strat H order st s0) as [st1 r1] eqn:Er.
+  - destruct (route_write_gen (interf_of specs) ROUTE_FUEL 0 strat H (order_at orders) st s0) as [st1 r1] eqn:Er.
     intros Heq Hold Hnew. inversion Heq; subst. right.
     destruct (N.eq_dec s s0) as [->|Hne]; [eauto|].
     exfalso. apply Hnew. rewrite (route_gen_other_shards _ _ _ _ _ _ Hne _ _ _ _ _ Er). exact Hold.
@@ -923,7 +926,7 @@ Proof. vm_compute. split; reflexivity. Qed.
    attempt — the call still returns, with the bounded-retry error *)
 Example ex_interference_bounded :
   snd (route_write_gen (fun _ r => reg_update 0 (set_status Draining) (reg_update 1 (set_status Draining) r))
-         ROUTE_FUEL 0 ConsistentHash ex_hashes [0; 1]
+         ROUTE_FUEL 0 ConsistentHash ex_hashes (fun _ => [0; 1])
          (run ConsistentHash ex_hashes ex_history) 7) = Failed E_NO_HEALTHY.
 Proof. vm_compute. reflexivity. Qed.
 
@@ -940,7 +943,7 @@ Example ex_move_under_interference :
   let h := [ORegister 0 Ingester Healthy 0 []; ORegister 1 Ingester Healthy 0 []; ORoute 1 [0; 1]] in
   let st := run RoundRobin ex_hashes h in
   aget N.eqb 1 (st_asg st) = Some 0 /\ eligible (st_reg st) 0 = true /\
-  step RoundRobin ex_hashes st (ORouteI 1 [0; 1] [[RStatus 0 Draining]])
+  step RoundRobin ex_hashes st (ORouteI 1 [[0; 1]] [[RStatus 0 Draining]])
   = (mkState [(0, mkNode Ingester Draining 0 [1]); (1, mkNode Ingester Healthy 0 [1])] [(1, 1)] [],
      RRoute (Done 1)).
 Proof. vm_compute. repeat split; reflexivity. Qed.
